@@ -1416,8 +1416,36 @@ def m_all(I, args, kwargs, node):
     return True
 
 
+class SymGen:
+    """Generator expression over a sequence of symbolic length: `at(i)` is the element for index term i."""
+    def __init__(self, length, at):
+        self.length, self.at = length, at
+
+
+def _minmax_symgen(I, gen, node, ismax):
+    """min / max of integers over a sequence of unknown length: the library contract of min/max, given pointwise.
+    The result m is one of the elements (witness index) and bounds the element at every *ghost index* the contract
+    under verification declares (`ghost_indices`) -- which is how a universally quantified fact is used without
+    giving the solver a quantifier.  Empty sequence: ValueError, as in Python."""
+    n = gen.length
+    if I.decide(n == 0):
+        raise _raise(ValueError)
+    m = fresh_sym('max' if ismax else 'min', 'int')
+    j = T.fresh('witness', T.Int)
+    ej = gen.at(j)
+    if not is_int(ej):
+        raise _oos('min/max over non-integer elements of a symbolic-length sequence', node)
+    I.assume(z3.And(j >= 0, j < n, lift(ej) == m.e))
+    for g in getattr(I.active, 'ghost_indices', []) if I.active is not None else []:
+        eg = lift(gen.at(g))
+        I.assume(z3.Implies(z3.And(g >= 0, g < n), eg <= m.e if ismax else eg >= m.e))
+    return m
+
+
 def _minmax(I, args, kwargs, node, ismax):
     key = kwargs.get('key')
+    if len(args) == 1 and isinstance(args[0], SymGen) and key is None:
+        return _minmax_symgen(I, args[0], node, ismax)
     if len(args) == 1:
         items = concrete_items(I, args[0], node)
     else:
